@@ -13,11 +13,11 @@ SPEC = {
                     "count over an empty bucket under fill(null)/default is accepted as null or 0",
                     "rows whose selected fields are all null but which pass a field predicate may be present or absent"],
     "campaigns": [
-        {"name": "raw_selections", "run": "^TestRawSelections$", "quick": B(3, 4, 900, shrinktime="60s"), "thorough": B(40, 5, 3400, shrinktime="180s")},
-        {"name": "limit_layouts", "run": "^TestLimitLayouts$", "quick": B(4, 4, 900, shrinktime="60s"), "thorough": B(50, 5, 3400, shrinktime="180s")},
-        {"name": "overwrite_layers", "run": "^TestOverwriteLayers$", "quick": B(4, 4, 900, shrinktime="60s"), "thorough": B(50, 5, 3400, shrinktime="180s")},
-        {"name": "aggregates", "run": "^TestAggregates$", "quick": B(3, 4, 900, shrinktime="60s"), "thorough": B(40, 5, 3400, shrinktime="180s")},
-        {"name": "time_buckets", "run": "^TestTimeBuckets$", "quick": B(3, 4, 900, shrinktime="60s"), "thorough": B(40, 5, 3400, shrinktime="180s")},
+        {"name": "raw_selections", "run": "^TestRawSelections$", "quick": B(3, 4, 900, shrinktime="60s"), "thorough": B(12, 5, 3400, shrinktime="180s")},
+        {"name": "limit_layouts", "run": "^TestLimitLayouts$", "quick": B(4, 4, 900, shrinktime="60s"), "thorough": B(12, 5, 3400, shrinktime="180s")},
+        {"name": "overwrite_layers", "run": "^TestOverwriteLayers$", "quick": B(4, 4, 900, shrinktime="60s"), "thorough": B(12, 5, 3400, shrinktime="180s")},
+        {"name": "aggregates", "run": "^TestAggregates$", "quick": B(3, 4, 900, shrinktime="60s"), "thorough": B(12, 5, 3400, shrinktime="180s")},
+        {"name": "time_buckets", "run": "^TestTimeBuckets$", "quick": B(3, 4, 900, shrinktime="60s"), "thorough": B(12, 5, 3400, shrinktime="180s")},
     ],
 }
 
